@@ -9,14 +9,26 @@
 //!     io.now  0                      clock                 (virtual clock, unit 10 us)
 //!     io.sys  f + 256 * op           n | 2^32 + errno      (op 0 read-like, 1 write-like, 2 close of a stream socket,
 //!                                                           3 shutdown(Write), 4 close of a datagram socket)
-//! where f is the MODEL descriptor (connection c = descriptors 2c, 2c+1).  Calls on other descriptors (the trace file,
+//!                                                           5 accept on a listener: the value is the MODEL descriptor of
+//!                                                             the connecting socket whose connection was handed over,
+//!                                                           6 connect, 7 close of a listener)
+//! where f is the MODEL descriptor (connection c = descriptors 2c, 2c+1).  accept / accept4 / connect are interposed
+//! the same way.  A connecting socket is created inside may (`{Unix,Tcp}StreamConnect::new`): the scenario announces
+//! "the next connect of this coroutine / thread is model descriptor f towards listener l" (`pend_connect`), the
+//! interposed `connect` registers the raw descriptor at its first call and appends f to the arrival order of l (both
+//! kernels queue connections in the order the connects were issued: unix sockets inside the call, loopback TCP inside
+//! the call's softirq); the interposed accept takes the head of that order and registers the new descriptor as the
+//! peer of the connecting one (MODEL descriptor f ^ 1) when the listener was registered with `track_accepted`.  Calls on other descriptors (the trace file,
 //! stdout, the selector's eventfd, untracked sockets) and all calls while the tap is off are passed through untouched.
 //! Nothing here changes a result or errno.  The API-level events (`io.call`, `io.ret`, `io.actor`, `io.cancel`) are
 //! logged by the scenario through the helpers below.
 #![allow(dead_code)]
-use std::sync::atomic::{AtomicBool, AtomicU32, Ordering};
+use std::sync::atomic::{AtomicBool, AtomicU32, AtomicU64, Ordering};
+use std::sync::Mutex;
 
 static ON: AtomicBool = AtomicBool::new(false);
+/// descriptor tables without logging (accept / connect scenarios need the arrival order for their oracles in untapped runs too)
+static TABLES: AtomicBool = AtomicBool::new(false);
 const NFD: usize = 1024;
 #[allow(clippy::declare_interior_mutable_const)]
 const Z: AtomicU32 = AtomicU32::new(0);
@@ -32,6 +44,9 @@ extern "C" {
 const SYS_READ: i64 = 0;
 const SYS_WRITE: i64 = 1;
 const SYS_CLOSE: i64 = 3;
+const SYS_CONNECT: i64 = 42;
+const SYS_ACCEPT: i64 = 43;
+const SYS_ACCEPT4: i64 = 288;
 const SYS_SENDTO: i64 = 44;
 const SYS_RECVFROM: i64 = 45;
 const SYS_SHUTDOWN: i64 = 48;
@@ -45,24 +60,85 @@ pub fn enable() -> bool {
 pub fn on() -> bool {
     ON.load(Ordering::Relaxed)
 }
+pub fn tables(on: bool) {
+    TABLES.store(on, Ordering::SeqCst);
+}
+fn tabs() -> bool {
+    ON.load(Ordering::Relaxed) || TABLES.load(Ordering::Relaxed)
+}
+const K_STREAM: u32 = 0;
+const K_DGRAM: u32 = 1;
+const K_LISTEN: u32 = 2;
+const K_LISTEN_TRACK: u32 = 3;
 /// register a socket: raw descriptor -> model descriptor
 pub fn track(raw: i32, f: u64, dgram: bool) {
-    if on() && (raw as usize) < NFD {
-        FDTAB[raw as usize].store((f as u32 + 1) | ((dgram as u32) << 16), Ordering::SeqCst);
+    track_kind(raw, f, if dgram { K_DGRAM } else { K_STREAM });
+}
+fn track_kind(raw: i32, f: u64, kind: u32) {
+    if tabs() && raw >= 0 && (raw as usize) < NFD {
+        FDTAB[raw as usize].store((f as u32 + 1) | (kind << 16), Ordering::SeqCst);
     }
 }
-fn lookup(raw: i32) -> Option<(u64, bool)> {
-    if !on() || raw < 0 || raw as usize >= NFD {
+/// register a listener; `accepted`: the sockets it hands out are registered as the peers of the connecting ones
+pub fn track_listener(raw: i32, l: u64, accepted: bool) {
+    track_kind(raw, l, if accepted { K_LISTEN_TRACK } else { K_LISTEN });
+    ARRIVAL.lock().unwrap().retain(|x| x.0 != l);
+}
+pub fn untrack(raw: i32) {
+    if raw >= 0 && (raw as usize) < NFD {
+        FDTAB[raw as usize].store(0, Ordering::SeqCst);
+    }
+}
+fn lookup_kind(raw: i32) -> Option<(u64, u32)> {
+    if !tabs() || raw < 0 || raw as usize >= NFD {
         return None;
     }
     let v = FDTAB[raw as usize].load(Ordering::Relaxed);
     if v == 0 {
         None
     } else {
-        Some((((v & 0xffff) - 1) as u64, v >> 16 != 0))
+        Some((((v & 0xffff) - 1) as u64, v >> 16))
     }
 }
+fn lookup(raw: i32) -> Option<(u64, bool)> {
+    lookup_kind(raw).map(|(f, k)| (f, k == K_DGRAM))
+}
+/// (listener, connecting descriptor) in the order the connects were issued
+static ARRIVAL: Mutex<Vec<(u64, u64)>> = Mutex::new(Vec::new());
+/// (coroutine identity or thread key, connecting descriptor, listener): announced connects
+static PENDING: Mutex<Vec<(u64, u64, u64)>> = Mutex::new(Vec::new());
+/// (listener, connecting descriptor) of the latest accept per listener
+static LASTACC: Mutex<Vec<(u64, u64)>> = Mutex::new(Vec::new());
+static THREAD_KEY: AtomicU64 = AtomicU64::new(0);
+fn who() -> u64 {
+    let c = may::verif::current_co_id();
+    if c != 0 {
+        c
+    } else {
+        // a plain thread: the address of a thread local
+        thread_local!(static K: u8 = 0);
+        K.with(|k| k as *const u8 as u64) | 1
+    }
+}
+/// the next `connect` system call of the calling coroutine / thread on an unregistered descriptor is model descriptor
+/// `f`, towards listener `l`
+pub fn pend_connect(f: u64, l: u64) {
+    if tabs() {
+        let w = who();
+        let mut p = PENDING.lock().unwrap();
+        p.retain(|x| x.0 != w);
+        p.push((w, f, l));
+    }
+    let _ = &THREAD_KEY;
+}
+/// the connecting descriptor whose connection the latest accept on listener `l` handed over
+pub fn last_accepted(l: u64) -> Option<u64> {
+    LASTACC.lock().unwrap().iter().rev().find(|x| x.0 == l).map(|x| x.1)
+}
 fn log2(kind: &'static str, a: u64, b: u64) {
+    if !on() {
+        return;
+    }
     let c = mayv::ctx();
     c.log("io.now", 0, c.now() / UNIT, None);
     c.log(kind, a, b, None);
@@ -88,6 +164,19 @@ pub fn call_rd(f: u64, dgram: bool, to_ns: Option<u64>, n: usize) {
 pub fn call_wr(f: u64, dgram: bool, off: u64, n: usize) {
     if on() {
         log2("io.call", f + 256 + 1024 * dgram as u64, ((off & 0xfffff) << 16) | (n as u64 & 0xffff));
+    }
+}
+/// accept on listener `l`
+pub fn call_acc(l: u64) {
+    if on() {
+        log2("io.call", l + 512 + 2048, 0);
+    }
+}
+/// connect of descriptor `f` towards listener `l`; timeout as armed by the kernel half (ns)
+pub fn call_co(f: u64, l: u64, to_ns: Option<u64>) {
+    if on() {
+        let to = to_ns.map(|t| t / UNIT + 1).unwrap_or(0);
+        log2("io.call", f + 512 + 4096, (to << 36) | (l & 0xffff));
     }
 }
 /// the call returned Ok(n): for a read the elements off .. off + n (the scenario compared the bytes), message `off`
@@ -195,13 +284,82 @@ pub unsafe extern "C" fn sendto(fd: i32, buf: *const u8, len: usize, flags: i32,
 }
 #[no_mangle]
 pub unsafe extern "C" fn close(fd: i32) -> i32 {
-    let t = lookup(fd);
+    let t = lookup_kind(fd);
     if t.is_some() {
         FDTAB[fd as usize].store(0, Ordering::SeqCst);
     }
     let r = syscall(SYS_CLOSE, fd as i64);
-    if let Some((f, dg)) = t {
-        logsys(f, if dg { 4 } else { 2 }, r);
+    if let Some((f, k)) = t {
+        logsys(f, if k == K_DGRAM { 4 } else if k == K_STREAM { 2 } else { 7 }, r);
+    }
+    r as i32
+}
+unsafe fn after_accept(fd: i32, r: i64) {
+    if let Some((l, k)) = lookup_kind(fd) {
+        if k != K_LISTEN && k != K_LISTEN_TRACK {
+            return;
+        }
+        let e = *__errno_location();
+        if r >= 0 {
+            let c = {
+                let mut q = ARRIVAL.lock().unwrap();
+                q.iter().position(|x| x.0 == l).map(|i| q.remove(i).1)
+            };
+            match c {
+                Some(c) => {
+                    if k == K_LISTEN_TRACK {
+                        track_kind(r as i32, c ^ 1, K_STREAM);
+                    }
+                    LASTACC.lock().unwrap().push((l, c));
+                    log2("io.sys", l + 256 * 5, c);
+                }
+                // a connection nobody announced: no model descriptor; the acceptor rejects the value
+                None => log2("io.sys", l + 256 * 5, 0xffff),
+            }
+        } else {
+            log2("io.sys", l + 256 * 5, ERR + e as u64);
+        }
+        *__errno_location() = e;
+    }
+}
+#[no_mangle]
+pub unsafe extern "C" fn accept4(fd: i32, addr: *mut u8, alen: *mut u32, flags: i32) -> i32 {
+    let r = syscall(SYS_ACCEPT4, fd as i64, addr, alen, flags as i64);
+    after_accept(fd, r);
+    r as i32
+}
+#[no_mangle]
+pub unsafe extern "C" fn accept(fd: i32, addr: *mut u8, alen: *mut u32) -> i32 {
+    let r = syscall(SYS_ACCEPT, fd as i64, addr, alen);
+    after_accept(fd, r);
+    r as i32
+}
+#[no_mangle]
+pub unsafe extern "C" fn connect(fd: i32, addr: *const u8, alen: u32) -> i32 {
+    let r = syscall(SYS_CONNECT, fd as i64, addr, alen as i64);
+    if tabs() {
+        let e = *__errno_location();
+        if lookup_kind(fd).is_none() {
+            // the first connect of an announced connecting socket
+            let w = who();
+            let p = {
+                let mut p = PENDING.lock().unwrap();
+                p.iter().position(|x| x.0 == w).map(|i| p.remove(i))
+            };
+            if let Some((_, f, l)) = p {
+                track_kind(fd, f, K_STREAM);
+                if r == 0 || e == 115 {
+                    ARRIVAL.lock().unwrap().push((l, f));
+                }
+            }
+        }
+        if let Some((f, k)) = lookup_kind(fd) {
+            if k == K_STREAM {
+                *__errno_location() = e;
+                logsys(f, 6, r);
+            }
+        }
+        *__errno_location() = e;
     }
     r as i32
 }
